@@ -57,8 +57,8 @@ def gen_service_program(rng: Any, *, crash: bool = False) -> dict[str, Any]:
                     "ends_by_itself": None, "started_value": rng.random() < 0.5, "own_teardown": rng.random() < 0.4,
                     "spawn_via": rng.choice(["method", "shortcut"]),
                     # how a callable teardown action is given: plain function, functools.partial, or an object with __call__
-                    "action_form": rng.choice(["function", "function", "partial", "object", "builtin", "method_wrapper"]),
-                    "func_form": rng.choice(["function", "function", "partial", "object"]),
+                    "action_form": rng.choice(["function", "function", "partial", "object", "unhashable_object", "builtin", "method_wrapper"]),
+                    "func_form": rng.choice(["function", "function", "partial", "object", "unhashable_object"]),
                     "start_delay": 0}
             if spec["started_value"] and rng.random() < 0.4:
                 spec["start_delay"] = 0.5  # the task takes a while before it reports itself started
@@ -101,19 +101,19 @@ def wrap_form(func: Any, form: str, takes_task_status: bool) -> Any:
         import functools
 
         return functools.partial(func)
-    if form == "object":
+    if form in ("object", "unhashable_object"):
+        # "unhashable": a callable object with __eq__ but no __hash__ (what a plain @dataclass with __call__ is)
+        extra: dict[str, Any] = {"__eq__": lambda s, o: s is o, "__hash__": None} if form == "unhashable_object" else {}
         if takes_task_status:
-            class StatusTask:
-                async def __call__(self, *, task_status: Any) -> None:
-                    await func(task_status=task_status)
+            async def call_status(self: Any, *, task_status: Any) -> None:
+                await func(task_status=task_status)
 
-            return StatusTask()
+            return type("StatusTask", (), {"__call__": call_status, **extra})()
 
-        class PlainTask:
-            async def __call__(self) -> None:
-                await func()
+        async def call_plain(self: Any) -> None:
+            await func()
 
-        return PlainTask()
+        return type("PlainTask", (), {"__call__": call_plain, **extra})()
     return func
 
 
@@ -254,16 +254,15 @@ class ServiceRun:
                         yield
 
                     teardown_action = trigger_gen().__next__
-            elif form == "object":
+            elif form in ("object", "unhashable_object"):
                 inner_action = teardown_action
 
-                class Stopper:
-                    """a callable *object* (no __qualname__ / __name__ of its own)"""
+                def call_action(self: Any) -> Any:
+                    return inner_action()
 
-                    def __call__(self) -> Any:
-                        return inner_action()
-
-                teardown_action = Stopper()
+                # a callable *object* (no __qualname__ / __name__ of its own), possibly unhashable (__eq__ without __hash__)
+                extra: dict[str, Any] = {"__eq__": lambda s, o: s is o, "__hash__": None} if form == "unhashable_object" else {}
+                teardown_action = type("Stopper", (), {"__call__": call_action, **extra})()
         return func, teardown_action
 
     async def body(self, ctx: Any) -> None:
@@ -613,7 +612,12 @@ def gen_factory_program(rng: Any) -> dict[str, Any]:
             spec = {"tid": tid, "via": rng.choice(["start_task", "start_task_soon"]), "from": rng.choice(["owner", "foreign", "foreign_sync", "task"]),
                     "dur": rng.choice([0.125, 0.625, 1.125, 2.625, 5.125]), "outcome": outcome, "exc": rng.choice(["ValueError", "Custom", "Group"]),
                     "task_status": rng.random() < 0.5, "name": rng.choice([None, f"task{tid}"]),
-                    "func_form": rng.choice(["function", "function", "partial", "object"])}
+                    "func_form": rng.choice(["function", "function", "partial", "object", "unhashable_object"])}
+            if outcome == "return" and rng.random() < 0.3 and (swallow or not will_crash):
+                # if this task is cancelled through its handle, its clean-up raises an Exception
+                spec["raise_on_cancel"] = True
+                if not swallow:
+                    will_crash = True
             if spec["from"] == "foreign_sync":
                 spec["via"] = "start_task_soon"
             if outcome == "return" and rng.random() < 0.25:
@@ -636,7 +640,9 @@ def gen_factory_program(rng: Any) -> dict[str, Any]:
         else:
             cmds.append(["yield", rng.randint(1, 3)])
     return {"backend": rng.choice(["asyncio", "trio"]), "sched_seed": rng.randrange(1 << 30), "shuffle": rng.random() < 0.5, "nested": rng.random() < 0.5,
-            "handler": handler, "cmds": cmds, "spawn_after_close": rng.choice([None, "start_task_soon", "start_task"])}
+            "handler": handler, "cmds": cmds, "spawn_after_close": rng.choice([None, "start_task_soon", "start_task"]),
+            # the factory is started in a context that holds no resource at all
+            "owner_empty": rng.random() < 0.3}
 
 
 class FactoryRun:
@@ -653,6 +659,7 @@ class FactoryRun:
         self.factory: Any = None
         self.handle_checks: list[dict[str, Any]] = []
         self.model_live: set[int] = set()
+        self.cancel_requested: set[int] = set()
         self.after_close: dict[str, Any] = {}
 
     def t(self) -> float:
@@ -681,6 +688,12 @@ class FactoryRun:
             try:
                 await anyio.sleep(spec["dur"])
             except BaseException as e:
+                if is_cancellation(e) and spec.get("raise_on_cancel") and tid in run.cancel_requested:
+                    # the task's clean-up fails while it is being cancelled through its handle: an Exception escapes the task
+                    exc = make_exc(spec["exc"], f"task{tid}-cleanup")
+                    run.raised[tid] = exc
+                    run.log("task-end", tid, how="raise", on_cancel=True)
+                    raise exc
                 run.log("task-end", tid, how="cancelled" if is_cancellation(e) else describe_exc(e))
                 raise
             late = spec.get("late_child_spec")
@@ -783,7 +796,8 @@ class FactoryRun:
 
         async def owner_block(ctx: Any) -> None:
             self.owner = ctx
-            ctx.add_resource(ST0(), "before")
+            if not prog.get("owner_empty"):
+                ctx.add_resource(ST0(), "before")
             self.factory = await ctx.start_background_task_factory(exception_handler=handler)
             ctx.add_resource(ST0(), "after")
             self.check_handles("factory started")
@@ -809,6 +823,7 @@ class FactoryRun:
                     tid = cmd[1]
                     if tid in self.handles:
                         self.log("cancel-call", tid)
+                        self.cancel_requested.add(tid)
                         self.handles[tid].cancel()
                         for _ in range(6):
                             await checkpoint()
@@ -930,7 +945,9 @@ def check_factory(run: FactoryRun) -> tuple[list[dict[str, Any]], dict[str, int]
             bad("factory-task-context", f"task {tid}: its context's parent is not the factory's own context (a child of the owning context)")
         if e["parent_is_spawner_ctx"]:
             bad("factory-task-context", f"task {tid} (spawned from {where}) runs in a child of the spawner's context")
-        if e["visible"] != ["before"]:
+        if prog.get("owner_empty"):
+            inc("tasks_of_a_factory_started_in_an_empty_context")
+        if e["visible"] != ([] if prog.get("owner_empty") else ["before"]):
             bad("factory-task-snapshot", f"task {tid} (spawned from {where}) sees resources {e['visible']}; the factory's context is a snapshot taken when the "
                                          f"factory was started: ['before']")
     # ---- start values / names
@@ -990,7 +1007,9 @@ def check_factory(run: FactoryRun) -> tuple[list[dict[str, Any]], dict[str, int]
             continue
         if tid in cancels and cancels[tid]["seq"] < e["seq"] and cancels[tid]["vt"] < s["vt"] + spec["dur"]:
             inc("tasks_cancelled_through_handle")
-            if e["how"] != "cancelled":
+            if e.get("on_cancel"):
+                inc("tasks_raising_while_cancelled_through_handle")
+            if e["how"] != "cancelled" and not e.get("on_cancel"):
                 bad("factory-cancel", f"task {tid} was cancelled through its handle but ended with {e['how']}")
             elif abs(e["vt"] - cancels[tid]["vt"]) > 1e-9:
                 bad("factory-cancel", f"task {tid} cancelled at {cancels[tid]['vt']} ended at {e['vt']}")
